@@ -1017,36 +1017,36 @@ Proof.
     pose proof (RX_do_start s0 id dn (enter s 0)) as Hr. rewrite Ey in *. apply leave_cf; auto. apply Hr. cbn. lia.
   - (* Stop *)
     split; [|apply Hok; exact I]. cbn [step]. rewrite Ea.
-    pose proof (do_stop_cf (st_maxr s) ss s0 cause cin cout dn (enter s 0) (JS_enter s ss Hj) eq_refl) as Hs.
+    pose proof (do_stop_cf (st_maxr s) ss s0 cause cin cout fe dn (enter s 0) (JS_enter s ss Hj) eq_refl) as Hs.
     cbn [enter x_sess] in Hs. destruct (find_sess s0 (st_sess s)) as [se0|].
-    + destruct Hs as (y & Ey & Hr & Hc & Eev & Ep & Ech & Est). rewrite Ey. cbn [leave fst snd].
-      set (q := mkQ ST_STOP s0 (s_ident se0) cin cout cause) in *.
+    + destruct Hs as (fi & fo & y & Ey & Hr & Hc & Eev & Ep & Ech & Est). rewrite Ey. cbn [leave fst snd].
+      set (q := mkQ ST_STOP s0 (s_ident se0) fi fo cause) in *.
       set (s' := mkSt _ true _ _ _ _ _ _). set (r := view _ _ s').
-      assert (Hd : died (Stop s0 cause cin cout dn 0) r = false).
+      assert (Hd : died (Stop s0 cause cin cout fe dn 0) r = false).
       { unfold died. cbn [o_ret r view]. rewrite Hr. reflexivity. }
-      unfold supd. destruct (post_counts (fold_left ev_upd (o_ev r) (pre ss (Stop s0 cause cin cout dn 0) r)) _ r Hd) as (E1 & E2 & E3 & E4).
+      unfold supd. destruct (post_counts (fold_left ev_upd (o_ev r) (pre ss (Stop s0 cause cin cout fe dn 0) r)) _ r Hd) as (E1 & E2 & E3 & E4).
       split; [reflexivity|]. split.
-      * rewrite E3, fold_ev_maxr. destruct (pre_counts ss (Stop s0 cause cin cout dn 0) r) as (_ & _ & _ & ->). exact Em.
+      * rewrite E3, fold_ev_maxr. destruct (pre_counts ss (Stop s0 cause cin cout fe dn 0) r) as (_ & _ & _ & ->). exact Em.
       * cbn [st_maxr st_pend st_chan st_stamp s']. cbn [o_ev r view] in *. rewrite Eev in *. cbn [enter x_ev app fold_left] in *.
-        pose proof (M_stop_sent (st_maxr s) (st_pend s) (st_chan s) (st_stamp s) (pre ss (Stop s0 cause cin cout dn 0) r) q (acked dn q)
+        pose proof (M_stop_sent (st_maxr s) (st_pend s) (st_chan s) (st_stamp s) (pre ss (Stop s0 cause cin cout fe dn 0) r) q (acked dn q)
                       eq_refl (M_pre _ _ _ _ _ _ _ Hm)) as Hs.
         rewrite Ep, Ech, Est. cbn [enter x_pend x_chan x_stamp].
         eapply M_same; [| | |exact Hs]; cbn [bump_ended ss_dropstop ss_ackstop ss_ended]; auto.
         rewrite E4. unfold r. cbn [o_ret view]. rewrite Hr. reflexivity.
     + rewrite Hs. cbn [leave fst snd set_ret enter x_ret x_ev x_sess x_pend x_chan x_files x_pjson x_stamp].
       set (s' := mkSt _ true _ _ _ _ _ _). set (r := view _ _ s').
-      assert (Hd : died (Stop s0 cause cin cout dn 0) r = false) by reflexivity.
-      unfold supd. destruct (post_counts (fold_left ev_upd (o_ev r) (pre ss (Stop s0 cause cin cout dn 0) r)) _ r Hd) as (E1 & E2 & E3 & E4).
+      assert (Hd : died (Stop s0 cause cin cout fe dn 0) r = false) by reflexivity.
+      unfold supd. destruct (post_counts (fold_left ev_upd (o_ev r) (pre ss (Stop s0 cause cin cout fe dn 0) r)) _ r Hd) as (E1 & E2 & E3 & E4).
       split; [reflexivity|]. split.
-      * rewrite E3, fold_ev_maxr. destruct (pre_counts ss (Stop s0 cause cin cout dn 0) r) as (_ & _ & _ & ->). exact Em.
+      * rewrite E3, fold_ev_maxr. destruct (pre_counts ss (Stop s0 cause cin cout fe dn 0) r) as (_ & _ & _ & ->). exact Em.
       * cbn [st_maxr st_pend st_chan st_stamp s']. eapply M_same; [exact E1|exact E2| |apply M_pre; exact Hm].
         rewrite E4. reflexivity.
   - (* InterimTick *)
     split; [|apply Hok; exact I]. cbn [step]. rewrite Ea.
-    destruct (do_interim_cf (st_maxr s) (pre ss (InterimTick cin cout dn order 0) (snd (fst (leave s false (do_interim cin cout dn order (enter s 0))))))
-                cin cout dn order (enter s 0)) as (y & Ey & Hy).
+    destruct (do_interim_cf (st_maxr s) (pre ss (InterimTick cin cout fe dn order 0) (snd (fst (leave s false (do_interim cin cout fe dn order (enter s 0))))))
+                cin cout fe dn order (enter s 0)) as (y & Ey & Hy).
     { split; [apply M_pre; exact Hm|reflexivity]. }
-    pose proof (RX_do_interim cin cout dn order (enter s 0)) as Hr. rewrite Ey in *. apply leave_cf; auto. apply Hr. cbn. lia.
+    pose proof (RX_do_interim cin cout fe dn order (enter s 0)) as Hr. rewrite Ey in *. apply leave_cf; auto. apply Hr. cbn. lia.
   - (* ProcessQueued *)
     split; [|apply Hok; exact I]. cbn [step]. rewrite Ea.
     destruct (do_queue_cf (st_maxr s) (pre ss (ProcessQueued dn 0) (snd (fst (leave s false (do_queue (st_maxr s) dn (enter s 0))))))
